@@ -210,7 +210,7 @@ def failed_attempt_is_pure(ctx, rule):
         writes = []
         for bi, si, st in b.iter_stmts():
             if st["k"] == "assign" and st["place"]["p"] and not b.blocks[bi]["cleanup"]:
-                pl = S.strip_refs(sy.place(st["place"]))
+                pl = S.strip_refs(sy.dest(st["place"]))
                 root = pl
                 while isinstance(root, tuple) and root and root[0] in ("field", "index", "down", "call"):
                     root = S.strip_refs(root[1]) if root[0] != "call" else (S.strip_refs(root[2][0]) if root[2] else None)
